@@ -301,7 +301,7 @@ def assign_drivers(raws, drivers, prefix, cli=0):
         sc = vlib.tlc_scenario_to_harness(r, "%s%d" % (prefix, i), drv)
         # a share of the scenarios is driven through the command line (pkg/cmd: flag parsing and wiring)
         needs_cli = any(st.get("flags", {}).get("install") for st in sc["steps"] if "op" in st)   # --install exists only in pkg/cmd
-        if (needs_cli or (cli and (i % cli == 0))) and "sched" not in sc:
+        if needs_cli or (cli and (i % cli == 0) and "sched" not in sc):
             for st in sc["steps"]:
                 if "op" in st:
                     st["via"] = "cli"
@@ -320,7 +320,10 @@ def race_run(d, scs, seed, tier):
     # (on the memory driver the stored records ARE the callers' release objects (L13), so any reader of the
     # store races with the operation that still mutates them; free runs use the Kubernetes-backed drivers,
     # the memory driver itself is exercised by `hv stress` at the driver interface)
-    for s in [s_ for s_ in scs if s_["driver"] != "memory"][: (40 if tier == "quick" else 300)]:
+    # (operations driven through pkg/cmd share the command package's global settings: two command lines in one
+    #  process race on them, which two helm processes do not; they are left out of the free runs)
+    nocli = [s_ for s_ in scs if not any(st.get("via") == "cli" for st in s_["steps"])]
+    for s in [s_ for s_ in nocli if s_["driver"] != "memory"][: (40 if tier == "quick" else 300)]:
         c = dict(s)
         c["sched"] = [{"k": "free", "p": 0}]
         free.append(c)
@@ -435,7 +438,8 @@ def preemption_sweep(raws, seed, tier):
         deployed = (a["op"] == "upgrade" or b["op"] == "upgrade" or pi % 2 == 0) and not (a["op"] == "install" and b["op"] == "install" and pi % 2)
         for k in range(0, 13):
             sc = {"id": "pre%d_%d" % (pi, k), "driver": "secret", "pre": pre,
-                  "steps": [dict(a, proc=1), dict(b, proc=2)],
+                  "steps": [dict(a, proc=1, **({"via": "cli"} if a["flags"].get("install") else {})),
+                            dict(b, proc=2, **({"via": "cli"} if b["flags"].get("install") else {}))],
                   "sched": [{"k": "b", "p": 1}] + [{"k": "c", "p": 1}] * k + [{"k": "b", "p": 2}, {"k": "r", "p": 2}, {"k": "r", "p": 1}]}
             if deployed:
                 sc["setup"] = [{"op": "install", "chart": "cA", "flags": {}}]
